@@ -10,6 +10,7 @@ Line-protocol driver for C19 (group chain). One op per line:
   rmto <h>                           removeFromCommonAncestor(GroupHeight = h)
   restart                            drop memory, run start-up on the store
   crash <k> add …|rmlast|rmto <h>    the op with only k physical writes let through, then restart
+  cadd <id> <pre> <parent> <create>  AddGroup that ran concurrently with another one (answer: result only)
   count | last | byheight <i> | byid <x> | iter | sync <x> | syncat <h> <n> | dump | mirror
 
 Answers: see `harness/cmd/c19/main.go` (same formats, produced from the real code).
@@ -127,6 +128,15 @@ def mutate (s : DState) (c : Chain) (ws : List String) (budget : Option Nat) : O
     else
     let (r, run) := addB c g k
     pure (afterRun s (addResStr r) run)
+  | ["cadd", a, b, p, cr], none => do
+    -- one of two concurrent AddGroup calls, reported by the harness in the sequential order that
+    -- explains their results: replayed here one after the other (answer = result only)
+    let g ← parseGroup4 a b p cr
+    if addCheck c g = .ok ∧ c.count ≥ 9223372036854775808 then
+      pure ({ s with boot := none }, "unmodelled")
+    else
+    let (r, c') := addGroup c g
+    pure ({ s with boot := some (.alive c') }, addResStr r)
   | ["rmlast"], none =>
     let (r, c') := remove c c.last
     some ({ s with boot := some (.alive c') }, toString r ++ " " ++ status c')
@@ -170,6 +180,7 @@ def query (c : Chain) : List String → Option String
 
 def isMutator : List String → Bool
   | "add" :: _ => true
+  | "cadd" :: _ => true
   | "rmlast" :: _ => true
   | "rmto" :: _ => true
   | _ => false
